@@ -96,6 +96,9 @@ pub fn set_star_limit(n: i64) {
 }
 
 pub fn quiet_panics() {
+    if std::env::var("WFH_LOUD").is_ok() {
+        return;
+    }
     std::panic::set_hook(Box::new(|_| {}));
 }
 
